@@ -108,6 +108,9 @@ impl Property for C13 {
         });
         Box::new(it)
     }
+    fn fuzz_plans(&self) -> Vec<(&'static str, u64)> {
+        vec![("wire_raw", 30000), ("wire_struct", 10000)]
+    }
     fn gen(&self, c: &mut Choices) -> Case {
         Case::Stream(gen_case(c))
     }
